@@ -5,6 +5,8 @@ PROP = {
     "engines": [
         {"name": "docupd", "quick": {"n": 1200, "workers": 8}, "thorough": {"n": 60000, "workers": 14}},
         {"name": "crdt", "quick": {"n": 600, "workers": 6}, "thorough": {"n": 30000, "workers": 14}},
+        # presence dimension of all-or-nothing: failing updaters that touch presence
+        {"name": "presence", "quick": {"n": 800, "workers": 4}, "thorough": {"n": 40000, "workers": 14}},
     ],
     "trusted_base": BASE_TB + [
         "Model/Document.lean is a functional model: the json-layer mutation of the clone and Execute on the root are the same function there; their agreement on the real code (incl. aliasing between clone and root, which no functional model can exhibit) is what the correspondence compares: clone Marshal and root Marshal are diffed against the model separately after every step",
@@ -16,6 +18,6 @@ PROP = {
     "partial": ["aliasing between clone and root (shallow DeepCopy) cannot be excluded by a functional model: detected by correspondence only",
                 "schema-rule rejection is exercised through the size-limit branch only",
                 "undo/redo stacks across failed updates: covered by C14's engine, not here"],
-    "not_modelled": ["text/tree operations inside updates (opaque in Model/Crdt.lean)", "presence changes inside updates"],
+    "not_modelled": ["text/tree operations inside updates (opaque in Model/Crdt.lean)"],
     "assumptions": ["the callback's effect on the clone is determined by the operations it records (json layer == Execute), checked per step by the crdt engine"],
 }
